@@ -69,19 +69,38 @@ pub mod k {
     const MAGIC_GHOST: u64 = 0x4748_4f53_545f_4b33; // "GHOST_K3"
     const MAGIC_MEMBER: u64 = 0x4d45_4d42_4552_5f5f; // marks "this transcript belongs to member i"
     const MAGIC_SUMMARY: u64 = 0x5355_4d4d_4152_595f; // marks "summary challenge of member i"
-    const HI_BITS: u64 = 0x8080_8080_8080_8080;
+    const HI_BITS: u64 = 0x0080_8080_8080_8080;
 
     // ---- ghost registers (plain assignments only) ---------------------------------------------
-    static mut N_MEMBERS: usize = 0;
-    static mut VK_BASE: *const u8 = core::ptr::null();
-    /// member whose `prepare` answers Err (MAXN = nobody)
-    static mut FAIL_AT: usize = MAXN;
-    static mut CHAL: [u64; 4] = [0; 4];
-    static mut CHAL_SQUEEZED: u8 = 0; // 0 never, 1 once, 2 more than once
-    static mut CHAL_MASK: u8 = 0;
-    static mut HASH_POISON: bool = false;
-    static mut CHECK_RUNS: u8 = 0; // 0 never, 1 once, 2 more than once
-    static mut CHECK_ANSWER: bool = false;
+    // ONE static with a unique initial content. Measured (Kani 0.68): separate `static mut X: usize = 0`
+    // registers share their storage with a constant allocation of the same bytes (the 0usize behind
+    // `Vec::new()`'s capacity): after `N_MEMBERS = 1` every fresh empty Vec<u8> had capacity 1 and its
+    // drop was reported as an invalid `__rust_dealloc` (same effect as the one described in notes/K2.md).
+    struct Regs {
+        magic: u64,
+        n_members: usize,
+        vk_base: *const u8,
+        /// member whose `prepare` answers Err (MAXN = nobody)
+        fail_at: usize,
+        chal: [u64; 4],
+        chal_squeezed: u8, // 0 never, 1 once, 2 more than once
+        chal_mask: u8,
+        hash_poison: bool,
+        check_runs: u8, // 0 never, 1 once, 2 more than once
+        check_answer: bool,
+    }
+    static mut G: Regs = Regs {
+        magic: 0x4b33_5f52_4547_5321,
+        n_members: 0,
+        vk_base: core::ptr::null(),
+        fail_at: MAXN,
+        chal: [0; 4],
+        chal_squeezed: 0,
+        chal_mask: 0,
+        hash_poison: false,
+        check_runs: 0,
+        check_answer: false,
+    };
 
     fn limbs_of<T>(x: &T) -> [u64; 4] {
         assert!(core::mem::size_of::<T>() == 32);
@@ -110,7 +129,7 @@ pub mod k {
             } else if i[3] == MAGIC_SUMMARY && i[0] < MAXN as u64 {
                 self.mask |= 1u8 << (i[0] as u8);
             } else {
-                unsafe { HASH_POISON = true };
+                unsafe { G.hash_poison = true };
             }
         }
         fn squeeze(&mut self) -> FH {
@@ -147,9 +166,9 @@ pub mod k {
             } else {
                 // squeeze of the batching transcript: THE challenge
                 unsafe {
-                    CHAL_SQUEEZED = if CHAL_SQUEEZED == 0 { 1 } else { 2 };
-                    CHAL_MASK = o.mask;
-                    elem_of(CHAL)
+                    G.chal_squeezed = if G.chal_squeezed == 0 { 1 } else { 2 };
+                    G.chal_mask = o.mask;
+                    elem_of(G.chal)
                 }
             }
         }
@@ -193,32 +212,49 @@ pub mod k {
         w: [u64; 4],
         cnt: u64,
     }
+    // The ghost words live INSIDE the guard struct, in the data pointers of its six (empty, capacity 0)
+    // vectors: a Vec with capacity 0 and length 0 never dereferences or frees its pointer, so the word
+    // is inert for every real operation that may touch a guard (move, drop) and no heap object is
+    // needed (pointers loaded back from the byte-array heap buffer of `Vec<DualMSM>` are symbolic
+    // for CBMC's symbolic execution; dereferencing them was measured to cost 8 GB at n = 3).
+    // A real `clone` of a guard yields fresh empty vectors: the magic word is lost and every stand-in
+    // refuses the object ("a guard that did not come from prepare").
+    // word = (value << 8) | 8: non-null and 8-aligned, as a Vec's pointer must be.
+    fn enc(v: u64) -> usize {
+        assert!(v >> 56 == 0);
+        ((v << 8) | 8) as usize
+    }
+    fn dec<T>(v: &Vec<T>) -> u64 {
+        let w = v.as_ptr() as usize as u64;
+        assert!(w & 0xff == 8 && v.len() == 0 && v.capacity() == 0, "a guard that did not come from prepare");
+        w >> 8
+    }
+    fn inert<T>(word: usize) -> Vec<T> {
+        unsafe { Vec::from_raw_parts(word as *mut T, 0, 0) }
+    }
     /// the ghost state of a guard (asserts that the object is one of ours)
     fn ghost_of<G>(g: &G) -> Ghost {
         assert!(core::mem::size_of::<G>() == core::mem::size_of::<DualMirror>());
         let m = unsafe { &*(g as *const G as *const DualMirror) };
-        assert!(m.left.scalars.len() == 2, "a guard that did not come from prepare");
-        let meta = limbs_of(&m.left.scalars[1]);
-        assert!(meta[1] == MAGIC_GHOST, "a guard that did not come from prepare");
-        Ghost { w: limbs_of(&m.left.scalars[0]), cnt: meta[0] }
+        assert!(dec(&m.right.labels) == MAGIC_GHOST >> 8, "a guard that did not come from prepare");
+        Ghost { w: [dec(&m.left.scalars), dec(&m.left.bases), dec(&m.right.scalars), dec(&m.right.bases)], cnt: dec(&m.left.labels) }
+    }
+    fn mirror_of(s: Ghost) -> DualMirror {
+        DualMirror {
+            left: MsmMirror { scalars: inert(enc(s.w[0])), bases: inert(enc(s.w[1])), labels: inert(enc(s.cnt)) },
+            right: MsmMirror { scalars: inert(enc(s.w[2])), bases: inert(enc(s.w[3])), labels: inert(enc(MAGIC_GHOST >> 8)) },
+        }
     }
     fn set_ghost<G>(g: &mut G, s: Ghost) {
         let m = unsafe { &mut *(g as *mut G as *mut DualMirror) };
-        m.left.scalars[0] = elem_of(s.w);
-        m.left.scalars[1] = elem_of([s.cnt, MAGIC_GHOST, 0, 0]);
+        // the old vectors are inert (capacity 0): overwritten without running their drop
+        unsafe { core::ptr::write(m, mirror_of(s)) };
     }
     fn new_guard<G>(tag: usize) -> G {
         assert!(core::mem::size_of::<G>() == core::mem::size_of::<DualMirror>());
         let mut w = [0u64; 4];
         w[tag] = 1; // the polynomial 1 on member `tag`
-        let m = DualMirror {
-            left: MsmMirror {
-                scalars: vec![elem_of(w), elem_of([1u64 << (8 * tag), MAGIC_GHOST, 0, 0])],
-                bases: Vec::new(),
-                labels: Vec::new(),
-            },
-            right: MsmMirror { scalars: Vec::new(), bases: Vec::new(), labels: Vec::new() },
-        };
+        let m = mirror_of(Ghost { w, cnt: 1u64 << (8 * tag) });
         unsafe { core::mem::transmute_copy(&core::mem::ManuallyDrop::new(m)) }
     }
 
@@ -238,11 +274,11 @@ pub mod k {
             + Ord,
         CS::Commitment: midnight_proofs::transcript::Hashable<T::Hash>,
     {
-        let off = unsafe { (vk as *const _ as *const u8).offset_from(VK_BASE) };
+        let off = unsafe { (vk as *const _ as *const u8).offset_from(G.vk_base) };
         assert!(off >= 0);
         let tag = off as usize / VKSZ;
-        assert!(tag < unsafe { N_MEMBERS }, "prepare called on a key outside the batch");
-        if tag == unsafe { FAIL_AT } {
+        assert!(tag < unsafe { G.n_members }, "prepare called on a key outside the batch");
+        if tag == unsafe { G.fail_at } {
             return Err(Error::Opening);
         }
         let marked: F2 = elem_of([tag as u64, 0, 0, MAGIC_MEMBER]);
@@ -258,7 +294,7 @@ pub mod k {
         /// the FINAL STEP
         pub fn check(s: DualMSM<E>, _params: &ParamsVerifierKZG<E>) -> bool {
             let g = ghost_of(&s);
-            let n = unsafe { N_MEMBERS };
+            let n = unsafe { G.n_members };
             let mut j = 0;
             while j < MAXN {
                 let c = (g.cnt >> (8 * j)) & 0xff;
@@ -279,19 +315,19 @@ pub mod k {
                 j += 1;
             }
             unsafe {
-                CHECK_RUNS = if CHECK_RUNS == 0 { 1 } else { 2 };
-                CHECK_ANSWER = kani::any();
+                G.check_runs = if G.check_runs == 0 { 1 } else { 2 };
+                G.check_answer = kani::any();
                 core::mem::forget(s);
-                CHECK_ANSWER
+                G.check_answer
             }
         }
         pub fn scale(s: &mut DualMSM<E>, e: E::Fr) {
-            assert!(unsafe { CHAL_SQUEEZED } == 1, "scale before the challenge was squeezed");
-            assert!(crate::vk::eqn(&limbs_of(&e), &unsafe { CHAL }), "scaled by a value that is not the batching challenge");
+            assert!(unsafe { G.chal_squeezed } == 1, "scale before the challenge was squeezed");
+            assert!(crate::vk::eqn(&limbs_of(&e), &unsafe { G.chal }), "scaled by a value that is not the batching challenge");
             let mut g = ghost_of(s);
             let mut j = 0;
             while j < MAXN {
-                assert!(g.w[j] >> 56 == 0, "degree exceeds the harness bound (8)");
+                assert!(g.w[j] >> 48 == 0, "degree exceeds the harness bound (6)");
                 g.w[j] <<= 8;
                 j += 1;
             }
@@ -317,7 +353,7 @@ pub mod k {
     struct Store([u8; MAXN * VKSZ]);
 
     /// `fail_at` = MAXN: every `prepare` answers Ok.
-    pub fn run_fold(n: usize, fail_at: usize) {
+    pub fn run_fold(n: usize, fail_at: usize) -> (bool, u8) {
         mirror_self_check();
         // all-zero opaque keys: nb_public_inputs = 0; every other use of a key goes through `prepare`
         let store = Store([0u8; MAXN * VKSZ]);
@@ -326,37 +362,31 @@ pub mod k {
         let vks: &[MidnightVK] = unsafe { core::slice::from_raw_parts(store.0.as_ptr() as *const MidnightVK, n) };
         let chal: [u64; 4] = kani::any();
         unsafe {
-            N_MEMBERS = n;
-            VK_BASE = store.0.as_ptr();
-            FAIL_AT = fail_at;
-            CHAL = chal;
-            CHAL_SQUEEZED = 0;
-            CHAL_MASK = 0;
-            HASH_POISON = false;
-            CHECK_RUNS = 0;
-            CHECK_ANSWER = false;
+            assert!(G.magic == 0x4b33_5f52_4547_5321);
+            G.n_members = n;
+            G.vk_base = store.0.as_ptr();
+            G.fail_at = fail_at;
+            G.chal = chal;
         }
         let pis: [Vec<F>; MAXN] = [Vec::new(), Vec::new(), Vec::new(), Vec::new()];
         let proofs: [Vec<u8>; MAXN] = [Vec::new(), Vec::new(), Vec::new(), Vec::new()];
         let r = midnight_zk_stdlib::batch_verify::<FH>(params, vks, &pis[..n], &proofs[..n]);
         let ok = r.is_ok();
-        let (runs, ans, sq, mask, poison) = unsafe { (CHECK_RUNS, CHECK_ANSWER, CHAL_SQUEEZED, CHAL_MASK, HASH_POISON) };
+        let (runs, ans, sq, mask, poison) = unsafe { (G.check_runs, G.check_answer, G.chal_squeezed, G.chal_mask, G.hash_poison) };
         assert!(!poison, "the transcript absorbed something that is neither a member mark nor a member summary");
         if fail_at < n {
             assert!(!ok, "a member whose preparation fails was accepted as part of a batch");
-            kani::cover!(!ok, "reached: batch with a failing member");
         } else {
             assert!(runs != 0, "batch_verify returned without running the final check");
             assert!(runs == 1, "the final check ran more than once");
             assert!(ok == ans, "batch_verify does not answer what the final check said");
             assert!(sq == 1, "the batching challenge was not squeezed exactly once");
             assert!(mask == ((1u16 << n) - 1) as u8, "the batching challenge does not bind every member's summary");
-            kani::cover!(runs == 1 && ok, "final step reached with n guards, accepted");
-            kani::cover!(runs == 1 && !ok, "final step reached with n guards, rejected");
         }
         core::mem::forget(r);
         core::mem::forget(pis);
         core::mem::forget(proofs);
+        (ok, runs)
     }
 }
 
@@ -371,7 +401,9 @@ macro_rules! fold_harness {
         #[kani::stub(midnight_proofs::poly::kzg::msm::DualMSM::scale, crate::h_batch_fold::k::FoldStubs::scale)]
         #[kani::stub(midnight_proofs::poly::kzg::msm::DualMSM::add_msm, crate::h_batch_fold::k::FoldStubs::add_msm)]
         pub fn $name() {
-            k::run_fold($n, k::MAXN);
+            let (ok, runs) = k::run_fold($n, k::MAXN);
+            kani::cover!(runs == 1 && ok, "final step reached with n guards, batch accepted");
+            kani::cover!(runs == 1 && !ok, "final step reached with n guards, batch rejected");
         }
         /// Natively the stand-ins do not exist (the real `prepare` would run on opaque keys): level 1 is
         /// not available; the spec names the level-2 scenario `batch-fold-attack` instead.
@@ -383,12 +415,12 @@ macro_rules! fold_harness {
 }
 fold_harness!(
     /// n = 1: no fold step; the single guard goes to the final check with weight 1
-    batch_fold_n1, 1, 7);
-fold_harness!(batch_fold_n2, 2, 7);
+    batch_fold_n1, 1, 5);
+fold_harness!(batch_fold_n2, 2, 5);
 fold_harness!(
     /// n = 3: the smallest size at which a repeated weight on members 1.. shows (seeded change C15-a)
-    batch_fold_n3, 3, 7);
-fold_harness!(batch_fold_n4, 4, 7);
+    batch_fold_n3, 3, 5);
+fold_harness!(batch_fold_n4, 4, 5);
 
 macro_rules! fold_err_harness {
     ($(#[$doc:meta])* $name:ident, $n:expr, $unwind:expr) => {
@@ -403,7 +435,9 @@ macro_rules! fold_err_harness {
         pub fn $name() {
             let f: usize = kani::any();
             kani::assume(f < $n);
-            k::run_fold($n, f);
+            let (ok, _runs) = k::run_fold($n, f);
+            kani::cover!(!ok && f == 0, "first member fails, batch rejected");
+            kani::cover!(!ok && f == $n - 1, "last member fails, batch rejected");
         }
         #[cfg(not(kani))]
         pub fn $name() {
@@ -413,4 +447,4 @@ macro_rules! fold_err_harness {
 }
 fold_err_harness!(
     /// n = 3, the preparation of ONE member (symbolic position) answers Err: the batch is rejected
-    batch_fold_member_err_n3, 3, 7);
+    batch_fold_member_err_n3, 3, 5);
